@@ -35,15 +35,16 @@ Fixpoint bad_idx {A} (f : A -> bool) (i : nat) (l : list A) : list nat :=
   match l with [] => [] | x :: r => if f x then bad_idx f (S i) r else i :: bad_idx f (S i) r end.
 """
 XML_NS = "http://www.w3.org/XML/1998/namespace"
-FLAG_NAMES = ["check", "check_attrs", "model_capacity_ok", "order_safe", "rep_confined", "cm_wf", "amp_default", "guard_orseq"]
-F_CHECK, F_ATTRS, F_MODEL, F_OSAFE, F_REP, F_WF, F_AMP, F_ORSEQ = range(8)
+FLAG_NAMES = ["check", "check_attrs", "model_capacity_ok", "order_safe", "rep_confined", "cm_wf", "amp_default", "guard_orseq", "rep_names_unique", "choice_dups_ok"]
+F_CHECK, F_ATTRS, F_MODEL, F_OSAFE, F_REP, F_WF, F_AMP, F_ORSEQ, F_REPU, F_DUPCH = range(10)
 
 
 # ------------------------------------------------------------------ Coq evaluation of a file with several Evals
 def coq_multi(tag, defs, evals, timeout=900):
     """Write Corr/<tag>.v with `defs` and one `Eval vm_compute in (e)` per entry; return the printed values."""
     os.makedirs(CORR, exist_ok=True)
-    path = os.path.join(CORR, f"c16_{tag}.v")
+    uniq = f"c16_{os.getpid()}_{tag}"          # run-unique: several checks may run at the same time
+    path = os.path.join(CORR, uniq + ".v")
     with open(path, "w") as f:
         f.write(HEADER + defs + "\n" + "\n".join(f"Eval vm_compute in ({e})." for e in evals) + "\n")
     rc, out, err = common._coqc(path, timeout)
@@ -58,7 +59,7 @@ def coq_multi(tag, defs, evals, timeout=900):
         except FileNotFoundError:
             pass
     try:
-        os.remove(os.path.join(CORR, f".c16_{tag}.aux"))
+        os.remove(os.path.join(CORR, f".{uniq}.aux"))
     except FileNotFoundError:
         pass
     if rc != 0:
@@ -418,6 +419,8 @@ def run(ck: Check):
     KNOWN = {"ns": "dtd-element-namespaces-lost", "any": "dtd-any-text-after-child",
              "tail": "dtd-any-child-tail-captured", "amp": "dtd-attribute-default-ampersand-unexpanded",
              "orseq": "dtd-choice-of-sequence-one-compound-slot",
+             "repdup": "dtd-repeated-choice-member-also-outside",
+             "dupchoice": "dtd-same-name-in-two-choices",
              "ws": "mixed-whitespace-only-text-dropped"}
     stats = {"classes": 0, "classes_check_true": 0, "docs_ok": 0, "docs_parse_failed": 0, "witness_confirmed": 0,
              "witness_unconfirmed": 0, "order_claimed_docs": 0}
@@ -434,10 +437,26 @@ def run(ck: Check):
         if code != 1:
             return None
         if flags[F_MODEL]:
-            # the mapper model kept capacity: the loss is elsewhere (only clause orseq explains one)
+            # the mapper model kept capacity: the loss is elsewhere (clauses dupchoice / orseq explain one)
+            if not flags[F_DUPCH]:
+                return KNOWN["dupchoice"]
             return KNOWN["orseq"] if compound and not flags[F_ORSEQ] else None
         if not gns:
             return KNOWN["ns"]
+        return None
+
+    def order_class(run, fls, classes):
+        """Order changed where only the property's own side condition (not the proved order_safe) promised it:
+        which Coq-computed guard clause of a class in the document explains it, if any."""
+        if not run["compound"]:
+            return None
+        cs = [fls[ci] for ci in classes if ci < len(fls)]
+        if any(not f[F_DUPCH] for f in cs):
+            return KNOWN["dupchoice"]
+        if any(not f[F_ORSEQ] for f in cs):
+            return KNOWN["orseq"]
+        if any(f[F_REP] and not f[F_OSAFE] and not f[F_REPU] for f in cs):
+            return KNOWN["repdup"]
         return None
 
     for si, sh in enumerate(shards):
@@ -472,7 +491,7 @@ def run(ck: Check):
                         w, text = [[ord(c) for c in clark(d, d["elements"][-1]["name"])]], True
                     if w is not None:
                         witness_jobs.append((run, ci, el, fl, gns[k], ["".join(chr(c) for c in q) for q in w], text))
-                    elif fl[F_MODEL] and not (run["compound"] and not fl[F_ORSEQ]):
+                    elif fl[F_MODEL] and fl[F_DUPCH] and not (run["compound"] and not fl[F_ORSEQ]):
                         ck.failure("capacity-lost-after-mapper", f"validator rejects the metadata of {el['name']} although the mapper kept capacity; no witness word",
                                    replay_of(run, element=el["name"]))
         bad_pa, bad_info, bad_unord, bad_reval, bad_lang, has_ws, has_wt, has_amp = map(
@@ -520,12 +539,12 @@ def run(ck: Check):
                     ck.failure(cls, "output does not have the same elements, attributes and values as the input (defaults applied)",
                                replay_of(run, doc=doc, out=dr["ok"]))
                 elif di in bad_info:
-                    orseq = run["compound"] and any(not flags[k][ci][F_ORSEQ] for ci in doc_cls[di] if ci < len(flags[k]))
-                    ck.failure(KNOWN["ns"] if not gns[k] else (KNOWN["orseq"] if orseq else "order-not-preserved"), "element order changed although the side condition for order holds",
+                    cls_o = order_class(run, flags[k], doc_cls[di])
+                    ck.failure(KNOWN["ns"] if not gns[k] else (cls_o or "order-not-preserved"), "element order changed although the side condition for order holds",
                                replay_of(run, doc=doc, out=dr["ok"]))
                 if di in bad_reval:
-                    orseq = run["compound"] and any(not flags[k][ci][F_ORSEQ] for ci in doc_cls[di] if ci < len(flags[k]))
-                    ck.failure(KNOWN["ns"] if not gns[k] else (KNOWN["orseq"] if orseq else "output-not-dtd-valid"), "serialized output is not DTD-valid although order is claimed for all its elements",
+                    cls_o = order_class(run, flags[k], doc_cls[di])
+                    ck.failure(KNOWN["ns"] if not gns[k] else (cls_o or "output-not-dtd-valid"), "serialized output is not DTD-valid although order is claimed for all its elements",
                                replay_of(run, doc=doc, out=dr["ok"]))
 
     # ---------------- witnesses of failed validator runs, replayed through the real parser
